@@ -1191,6 +1191,11 @@ func stepLeader(r *raft, m pb.Message) bool {
 		if r.readOnly.option != ReadOnlySafe || len(m.Context) == 0 {
 			return false
 		}
+		// only voters count for the read index quorum: a learner's ack says nothing about
+		// whether a majority still follows this leader
+		if pr.IsLearner {
+			return false
+		}
 
 		ackCount := r.readOnly.recvAck(m)
 		if ackCount < r.quorum() {
